@@ -70,7 +70,9 @@ type ConcResult struct {
 	NilRec      bool           `json:"nilRec"`
 	Infra       string         `json:"infra,omitempty"`
 	GraphStates []string       `json:"graphStates,omitempty"`
+	GraphEdges  []string       `json:"graphEdges,omitempty"`
 	graph       map[string]bool
+	edges       map[string]bool
 }
 
 type concRunner struct {
@@ -115,7 +117,7 @@ func newConcRunner(e *Entry, job *ConcJob) *concRunner {
 		}
 	}
 	r.nilRec, _ = probeNilRec(e)
-	r.res = &ConcResult{Mock: job.Mock, Scenario: job.Scenario, Histories: map[string]int{}, NilRec: r.nilRec, graph: map[string]bool{}}
+	r.res = &ConcResult{Mock: job.Mock, Scenario: job.Scenario, Histories: map[string]int{}, NilRec: r.nilRec, graph: map[string]bool{}, edges: map[string]bool{}}
 	return r
 }
 
@@ -525,10 +527,16 @@ func (r *concRunner) runOnce(choices []int, visited map[string]bool, byID []int)
 		return nil, false, err
 	}
 	s := r.s
+	prevProj, prevG := "", 0
 	for step := 0; ; step++ {
 		s.checkRaces()
 		if r.job.Graph {
-			r.res.graph[r.projection()] = true
+			p := r.projection()
+			r.res.graph[p] = true
+			if prevG != 0 {
+				r.res.edges[fmt.Sprintf("%s --g%d--> %s", prevProj, prevG, p)] = true
+			}
+			prevProj = p
 		}
 		var en []*G
 		alldone := true
@@ -606,6 +614,7 @@ func (r *concRunner) runOnce(choices []int, visited map[string]bool, byID []int)
 			g = en[0]
 		}
 		ns = append(ns, len(en))
+		prevG = g.id
 		s.apply(g)
 		r.res.Steps++
 		s.cur = g
@@ -726,6 +735,10 @@ func runConc(job *ConcJob) *ConcResult {
 		res.GraphStates = append(res.GraphStates, k)
 	}
 	sort.Strings(res.GraphStates)
+	for k := range res.edges {
+		res.GraphEdges = append(res.GraphEdges, k)
+	}
+	sort.Strings(res.GraphEdges)
 	if !res.Exhaustive {
 		// continue with random schedules from the seed
 		rng := rand.New(rand.NewSource(job.Seed))
